@@ -16,7 +16,7 @@ RETRIABLE = {22: (14, 15, 16, 51), 24: (14, 15, 16, 51, 3), 25: (14, 15, 16, 51)
              28: (14, 15, 16, 3), 10: (15,), 0: (6, 5, 3, 7, 19)}
 ABORTABLE = {24: (29,), 25: (30,), 28: (30,)}
 FATAL = {24: (47, 53), 25: (47, 53), 26: (47,), 28: (47, 53), 0: (47, 45)}
-TRANSPORT = ["drop_before", "drop_after", "timeout_before", "timeout_after"]
+TRANSPORT = ["drop_before", "drop_after", "timeout_before", "timeout_after", "node_down_failover"]
 
 
 class TxnFaults:
@@ -61,6 +61,24 @@ class TxnFaults:
         if f == "none":
             return None
         self.used += 1
+        if f == "node_down_failover":
+            # the broker this request went to dies; its partitions and coordinator roles move to the
+            # other broker (metadata and FindCoordinator reflect that at once)
+            other = [n for n in cluster.nodes if n != node][0]
+            cluster.down.add(node)
+            for tp, ld in list(cluster.leader.items()):
+                if ld == node:
+                    cluster.leader[tp] = other
+            if cluster.txn_coordinator_node == node:
+                cluster.txn_coordinator_node = other
+            if cluster.group_coordinator_node == node:
+                cluster.group_coordinator_node = other
+            for c in list(cluster.conns):
+                if c.node == node and c.connected():
+                    c.close(reason="sim-broker-down")
+            self.log.append((self.seen, TXN_APIS[k], f, "retriable"))
+            self.delivered.append(("retriable", k, f))
+            return "drop_before"
         cls = self.classify(k, f)
         self.log.append((self.seen, TXN_APIS[k], f, cls))
         entry["fault_class"] = cls
